@@ -242,7 +242,7 @@ pub fn enc_minbin(out: &mut Bits, x: u128, u: u128, e: End) {
     } else if x < short {
         out.push_field(x, (s - 1) as usize, e);
     } else {
-        let t = x - u + (1u128 << s);
+        let t = x + (1u128 << s) - u;
         // s bits: the high s-1 bits as a field, then the extra (lowest) bit last
         out.push_field(t >> 1, (s - 1) as usize, e);
         out.push_bit((t & 1) as u8);
